@@ -16,6 +16,22 @@ def reach():
         REACH[0] += 1
 
 
+SAMPLES = []  # a few concrete cases this partition explored (for the evidence file)
+
+
+def sample(x, limit=3):
+    """Record a concrete explored case (only values that are already concrete/realised)."""
+    if len(SAMPLES) >= limit:
+        return
+    if NATIVE:
+        SAMPLES.append(x)
+        return
+    from crosshair.tracers import NoTracing
+
+    with NoTracing():
+        SAMPLES.append(x)
+
+
 def note(s):
     if NATIVE:
         NOTES.append(str(s))
